@@ -252,9 +252,13 @@ class HSFZConnection:
                 unexpected_packets.append((hdr, req_hdr, data))
                 continue
 
-            # We do not want to consume packets that we were not expecting; add them to queue again
-            for item in unexpected_packets:
-                await self._read_queue.put(item)
+            # We do not want to consume packets that we were not expecting; add them to queue again.
+            # They arrived before everything which is still queued, so they have to go in front.
+            queued = []
+            while not self._read_queue.empty():
+                queued.append(self._read_queue.get_nowait())
+            for item in unexpected_packets + queued:
+                self._read_queue.put_nowait(item)
 
             return
 
